@@ -321,8 +321,10 @@ class C04(fw.Prop):
     assumptions = ["node arguments of mutators are live nodes, deleted nodes are non-root leaves, port offsets are "
                    ">= -1 (a call outside this guard ends the monitored history and the correspondence: its exception "
                    "class and effect are unspecified by the property)",
-                   "which free index a new node receives is not prescribed: the implementation's choice is followed by "
-                   "the model when it is a free index (any reuse policy), and must otherwise be the next fresh index",
+                   "which index a new node receives (and which indices the copies of an insertion receive, in which "
+                   "order) is not prescribed: the implementation's choice is followed by the model whenever it names an "
+                   "index that is not live (a freed one, the next fresh one, or one further beyond the end of the node "
+                   "table); a returned index that is live, or a returned mapping that is not injective, is a failure",
                    "_update_port_count and direct field writes are not part of the histories (private API)"]
 
     # ---- cases
@@ -342,6 +344,13 @@ class C04(fw.Prop):
                                 ["Insert", 0, 2, [["AddNode", 0, None, None, 0], ["AddNode", 0, None, None, 0],
                                                   ["DelNode", 1], ["AddNode", 1, 2, 1, 0], ["AddLink", [1, 0], [2, 0]]], 1]],
              "probes": []},
+            # source root{a{c}, b} built as a, b, c: pre-order and index order of the source differ, so an insert_hugr
+            # that walks the hierarchy numbers the copies differently (C04-n6, harmless); then calls on the copies
+            {"root": 6, "ops": [["AddNode", 0, None, None, 0],
+                                ["Insert", 0, 2, [["AddNode", 0, None, None, 0], ["AddNode", 1, None, None, 0],
+                                                  ["AddNode", 2, 1, 1, 0], ["AddLink", [3, 0], [2, 0]]], 1],
+                                ["AddLink", [4, 0], [5, 0]], ["DelNode", 5], ["AddNode", 3, 3, None, 0]],
+             "probes": [[[4, 0], [5, 0]], [[5, 0], [4, 0]]]},
             # same link twice, delete one; in-port fan-in shifted
             {"root": 6, "ops": n3 + [["AddLink", [1, 0], [2, 0]], ["AddLink", [1, 0], [2, 0]], ["AddLink", [3, 1], [2, 0]],
                                      ["DelLink", [1, 0], [2, 0]], ["DelLink", [1, 0], [2, 0]], ["DelLink", [1, 0], [2, 0]]],
